@@ -244,9 +244,13 @@ def fwd (s : State) (n : String) : State × Option Nat :=
 /-- the base name `pseudoUnicodeForGlyphName` falls back to: none for names starting with `.` or `_` and for
 names without `.` and `_`; else the part before the first `.`, and of that the part before the first `_` -/
 def baseName (n : String) : Option String :=
-  if n.startsWith "." || n.startsWith "_" then none
-  else if !(n.contains '.') && !(n.contains '_') then none
-  else some ((((n.splitOn ".").headD "").splitOn "_").headD "")
+  let cs := n.toList
+  match cs with
+  | [] => none
+  | c :: _ =>
+    if c = '.' ∨ c = '_' then none
+    else if '.' ∉ cs ∧ '_' ∉ cs then none
+    else some (String.ofList (cs.takeWhile (fun c => c ≠ '.' ∧ c ≠ '_')))
 
 /-- `unicodeData.pseudoUnicodeForGlyphName(n)` -/
 def pseudo (s : State) (n : String) : State × Option Nat :=
